@@ -322,11 +322,11 @@ class SimRNG:
         self.fired["reject:" + site] += 1
         return r
 
-    def _thin(self, index, r):
+    def _thin(self, index, r, modes=("all", "all", "half", "keep1")):
         """Reject all, or a random subset, of the accepted indices."""
         if len(index) == 0:
             return index
-        mode = r.choice(("all", "all", "half", "keep1"))
+        mode = r.choice(modes)
         if mode == "all":
             return index[:0]
         if mode == "keep1":
@@ -385,7 +385,9 @@ class SimRNG:
                                                    "_random_points_if_n_eq_1"):
                 r = sim._reject_now("check_in_b")
                 if r is not None:
-                    idx = sim._thin(idx, r)
+                    # no "keep1": the library estimates the acceptance rate from the
+                    # round and would (legitimately) ask for n**2 proposals next
+                    idx = sim._thin(idx, r, ("all", "all", "half"))
             return idx
         setp(sh, "_check_in_b", check_in_b)
 
